@@ -41,6 +41,7 @@ func workerMain(args []string) {
 	params := fs.String("params", "{}", "JSON harness parameters")
 	known := fs.String("known", "", "comma separated confirmed known findings")
 	stepLimit := fs.Int64("steplimit", 20_000_000, "SSA instructions per path")
+	samples := fs.Int("samples", 0, "completed paths this worker makes concrete for the native cross-check")
 	fs.Parse(args)
 
 	out := bufio.NewWriter(os.Stdout)
@@ -60,6 +61,7 @@ func workerMain(args []string) {
 	}
 	m := interp.NewMachine(l.prog, []*ssa.Package{hp}, nil)
 	m.StepLimit = *stepLimit
+	m.MaxSamples = *samples
 	p := map[string]int{}
 	json.Unmarshal([]byte(*params), &p)
 	m.SetParams(p)
